@@ -167,7 +167,19 @@ def discharge(obligations, timeout_s=30, procs=None, both=False, ground=True):
     jobs = [(i, t) for i, t in enumerate(texts) if t is not None]
     if jobs:
         if len(jobs) == 1 or procs == 1:
-            outs = [_solve_z3((t, int(timeout_s * 1000), True, ground)) for _, t in jobs]
+            outs = []
+            failed = {}
+            for i, t in jobs:
+                nm = results[i].ob.name
+                if failed.get(nm, 0) >= 2:
+                    # this obligation already failed twice in this script: do
+                    # not spend the full budget on every further instance
+                    o = _solve_z3((t, 4000, False, False))
+                else:
+                    o = _solve_z3((t, int(timeout_s * 1000), True, ground))
+                if o[0] != 'unsat':
+                    failed[nm] = failed.get(nm, 0) + 1
+                outs.append(o)
         else:
             ctx = multiprocessing.get_context('fork')
             with ctx.Pool(min(procs, len(jobs))) as pool:
